@@ -757,8 +757,13 @@ func evalIterateStmt(vm *r.VM, node *syntax.IterateStmt) error {
 			}
 		}
 	case *value.HashMap:
-		for _, key := range tv.GetKeyOrder() {
-			v := tv.GetValue()[key]
+		// the body may add or remove entries: visit the entries present now, each once
+		keys := append([]string{}, tv.GetKeyOrder()...)
+		for _, key := range keys {
+			v, ok := tv.GetValue()[key]
+			if !ok {
+				continue
+			}
 			keyVar := value.NewString(key)
 			// handle interrupts
 			if err := execIterationBlockFn(keyVar, v); err != nil {
